@@ -127,6 +127,7 @@ InSexp(v)   == Val("sexp", <<>>, <<v, v>>)
 InStruct(v) == Val("struct", <<>>, << [name |-> TextTok(<<102>>), val |-> v] >>)
 Annotated(v, anns) == [v EXCEPT !.ann = anns]
 
+IntOne == Val("int", <<>>, [neg |-> FALSE, mag |-> <<1>>])
 SlotCases ==
   \* every scalar at top level, annotated, and inside each container kind
   [i \in 1..Len(Scalars) |-> <<Scalars[i]>>]
@@ -139,7 +140,16 @@ SlotCases ==
   \* annotated containers, empty containers, typed-null containers, nesting
   \o << <<Val("list", AnnA, <<>>), Val("sexp", AnnA, <<>>), Val("struct", AnnA, <<>>)>>,
         <<Val("list", <<>>, <<Val("list", <<>>, <<Val("sexp", <<>>, <<Val("struct", <<>>, <<>>)>>)>>)>>)>>,
-        <<>> >>
+        <<>>,
+        \* a CHILD container whose content crosses the 2-byte / 3-byte length boundary (16383, 16384 bytes and more),
+        \* inside a parent, annotated, and as a struct field, followed by another value
+        <<Val("list", <<>>, <<Val("list", <<>>, <<Val("string", <<>>, Rep(122, 16380))>>), IntOne>>), IntOne>>,
+        <<Val("list", <<>>, <<Val("list", <<>>, <<Val("string", <<>>, Rep(122, 16381))>>), IntOne>>), IntOne>>,
+        <<Val("sexp", <<>>, <<Val("list", <<>>, <<Val("string", <<>>, Rep(122, 16384))>>), IntOne>>), IntOne>>,
+        <<Val("struct", <<>>, << [name |-> TextTok(<<97>>), val |-> Val("struct", <<>>, << [name |-> TextTok(<<98>>), val |-> Val("blob", <<>>, Rep(7, 20000))] >>)],
+                                [name |-> TextTok(<<99>>), val |-> IntOne] >>), IntOne>>,
+        <<Val("list", <<>>, <<Val("sexp", AnnA, <<Val("clob", <<>>, Rep(65, 16390))>>), IntOne>>), IntOne>> >>
+
 
 (***************************************************************************)
 (* Random part: forests driven by a stream of naturals.                    *)
